@@ -3,7 +3,7 @@ import itertools
 import random
 import sys
 
-from common import main
+from common import main, budget
 import build
 
 
@@ -94,7 +94,7 @@ def search(item, seed):
             return dict(function="CLEAR", input=case, observed=f"{name}: counts {(c.tp, c.fp, c.id_switch)}, expected {want}")
     rnd = random.Random(seed * 101 + 9)
     eids, gids = ["a", "b", "c"], ["A", "B", "C", None]
-    for _ in range(400):
+    for _ in range(budget(400)):
         hist = []
         for t in range(rnd.randint(2, 4)):
             es = rnd.sample(eids, rnd.randint(0, 3))
